@@ -38,6 +38,13 @@ LINK_EXTRA = {
 }
 
 
+def _unlink(p):
+    try:
+        os.unlink(p)
+    except OSError:
+        pass
+
+
 class BuildError(Exception):
     pass
 
@@ -161,6 +168,7 @@ def build_library(cfg, only=None):
                 os.unlink(tmp)
             _run(["ar", "rcs", tmp] + objs, "archive")
             os.rename(tmp, lib)
+    _unlink(lib + ".lock")
     return lib
 
 
@@ -216,6 +224,7 @@ def build_harness(name, cfg, sources, use_lib=True, lib_only=None, rapidcheck=Tr
             cmd += list(libs) + ["-lpthread", "-ldl", "-o", tmp]
             _run(cmd, "link " + name)
             os.rename(tmp, exe)
+    _unlink(exe + ".lock")
     return exe
 
 
